@@ -47,7 +47,7 @@ def replay (g : Globals) (steps : List HStep) : Check := do
   check db.isEmpty s!"replaying the recorded down migrations in reverse does not return to the empty schema: {repr (db.map (·.name))}"
 
 /-- (case id history cfg onDisk ((models up down nextUp nextDown hashHist hashModels errs)…)) -/
-def historyHandler : Handler
+def historyHandlerCore (versioned : Bool) : Handler
   | [cfg, _onDisk, .list steps] => do
     let g ← decodeCfg cfg
     let steps ← steps.mapM decodeHStep
@@ -58,7 +58,9 @@ def historyHandler : Handler
           throw s!"revision {k}: a step of the workflow failed: {s.errs}"
         if s.nextUp != "" || s.nextDown != "" then
           throw s!"revision {k}: after appending the migration the next diff is not empty: up={SExp.quote s.nextUp} down={SExp.quote s.nextDown}"
-        if s.hashHist != s.hashModels then
+        -- a versioned folder (WriteFilesWithVersion, version 0 first) declares the bookkeeping table, which HashValue
+        -- counts: C04 speaks of WriteFiles, so the fingerprints are not compared there (DESIGN.md section 8)
+        if !versioned && s.hashHist != s.hashModels then
           throw s!"revision {k}: fingerprint of the reloaded history ({s.hashHist}) differs from the models' ({s.hashModels})"
         k := k + 1
     let scripts := steps.map (·.models)
@@ -77,5 +79,9 @@ def historyHandler : Handler
     some (((judge "C04" regionConv converge).and (judge "C04" (region.map (· ++ "/replay")) (replay g steps))).and
       (judge "C13" regionConv noPositions))
   | _ => none
+
+def historyHandler : Handler := historyHandlerCore false
+/-- the same workflow with the files written by WriteFilesWithVersion -/
+def historyVersionedHandler : Handler := historyHandlerCore true
 
 end Sqlize.Driver
